@@ -174,6 +174,24 @@ CLAIMS["C13"] = dict(
                   "reference small-step Script semantics; exhaustive decision table of from_txdata; classification tables",
     engine="tablex+symx")
 
+CLAIMS["C14"] = dict(
+    cat="other",
+    text="Decides structural / abstract-evaluation clauses: PsbtInputSatisfier::check_older / check_after equal BIP-68/112 "
+         "and BIP-65 on grids around the lock (tx version, sequence incl. disable flag and final value, both units, both "
+         "input positions); finalize_input evaluated on model PSBTs for all states of the final fields x helper outcomes: "
+         "final inputs returned unchanged without consulting the helper, failure leaves every input untouched, success "
+         "stores exactly the checked scriptSig / witness (None when empty), keeps the utxo fields and clears the rest, "
+         "other inputs untouched; on MIR, finalize_input_helper borrows the PSBT immutably, every success exit passes "
+         "the success edge of interpreter_inp_check and returns the checked values; interpreter_inp_check fails on any "
+         "yielded error; the eight finalize entry points pass the announced malleability switch, visit every input and "
+         "refuse out-of-range indices; the updater records exactly the BIP-174 scripts per descriptor type.",
+    note="Trusted: rust-bitcoin PSBT / lock-time types modelled by fields and consensus encodings; C13 (interpreter) and "
+         "C01-C03 (satisfier); rustc THIR/MIR; evaluator. Real signatures / sighashes, extraction, operation-history "
+         "independence beyond the per-call state tables, and taproot field population are not decided.",
+    tech=STATIC + "finite decision tables by abstract evaluation of THIR on model PSBT states; MIR must-pass-through and "
+                  "def-use rule for check-then-return; call-site mode table",
+    engine="tablex+cfgq")
+
 NA = {
     "C15": "commitment arithmetic over hashes with shape-dependent index arithmetic: no sound structural argument in "
            "reach decides it; structural residue (depth bounds, constructor discipline, cache coherence, order "
